@@ -12,7 +12,9 @@ TRACE_TXT = ("TLC judges every recorded step of executions of the real engine wi
 CHECKS = {
     "C01": dict(ref="5 C01", tech="TLA+ trace validation (StorageTrace) of crash images + TLC model checking of Storage.tla",
                 text=TRACE_TXT + "the driver materialises the process-death and power-loss image after every I/O step of every "
-                     "operation, opens each with the real recovery code, commits again and reopens; TLC checks Durable on the "
+                     "operation (generated histories + fixed ones in which several transactions intern names before a compaction), opens each "
+                     "with the real recovery code, commits again and reopens; an image that matches no prefix is also reported here when it lacks "
+                     "something every state from the acknowledged one on contains; TLC checks Durable on the "
                      "implementation-shaped Storage model for every crash point of the model.",
                 note="power loss = each file as of its last sync_data (rename both ways); torn sectors are not enumerated"),
     "C02": dict(ref="5 C02", tech="TLA+ trace validation (StorageTrace) of crash images + TLC model checking of Storage.tla",
@@ -131,7 +133,8 @@ CHECKS = {
                 text="One writer operation (commit, compaction, index creation) runs against one reader assembling a snapshot; the controller "
                      "forces every interleaving of their schedule points (between the publication steps and between the snapshot's field "
                      "reads); TLC requires the dump through the snapshot to equal the quiescent dump before or after the operation as a "
-                     "whole, and the same snapshot read again after the writer finished (also across several compactions) to be unchanged.",
+                     "whole, and the same snapshot read again after the writer finished (also across several compactions) to be unchanged - "
+                     "including the statistics interface (node / relationship counts), which is judged for stability only.",
                 note="known findings KF-17 (non-atomic assembly, only when reads overlap publication) and KF-18 (in-place property sinking)"),
     "C09": dict(ref="5 C09", tech="TLC model checking of AutoCommit.tla + its behaviours replayed into ndb_execute_write under schedule-point hooks, judged by SchedTrace.TIncr",
                 text="AutoCommit.tla models the auto-commit entry point (snapshot, writer lock, execute+commit) with the order of the first two "
@@ -180,10 +183,13 @@ CHECKS = {
                 text="OrderedKey.tla transcribes the encoding at reduced width (4-bit integers, 6-bit minifloats, strings over {0,1,255}); TLC "
                      "checks order preservation, equality and prefix-freeness for every pair, and that dropping the -0.0 normalisation is "
                      "caught; the real encode_ordered_value is recorded for boundary and seeded 64-bit values and every pair is judged by "
-                     "OrderedKeyTrace.tla with exact integer / dyadic comparison.",
+                     "OrderedKeyTrace.tla with exact integer / dyadic comparison; floats outside the exact range (subnormals, the smallest normal number, "
+                     "values around the epsilon, the largest finite numbers) are ordered by their IEEE sign and magnitude bits.",
                 note="NaN excluded as in the property; lists/maps are outside the property's quantifier"),
-    "C28": dict(ref="5 C28", tech="TLA+ trace validation (StorageTrace)",
-                text=TRACE_TXT + "close, vacuum, reopen, dump, write, reopen.",
+    "C28": dict(ref="5 C28", tech="TLA+ trace validation (StorageTrace for generated histories, PagesTrace for large databases)",
+                text=TRACE_TXT + "close, vacuum, reopen, dump, write, reopen.  Large databases (600-1150 nodes: node table of two or three "
+                     "pages, also relocated; index; 20 kB values; vector index; compactions) are vacuumed while closed and everything read back is "
+                     "compared by PagesTrace with the content computed from the step parameters, before and after one more transaction.",
                 note="vacuum of a cleanly closed database only"),
 }
 
